@@ -481,6 +481,10 @@ impl Controller for Bbr {
         self.min_cwnd = calculate_min_window(self.current_mtu);
         self.init_cwnd = self.config.initial_window.max(self.min_cwnd);
         self.cwnd = self.cwnd.max(self.min_cwnd);
+        // `window()` is `min(cwnd, recovery_window)` while in recovery, so the recovery window
+        // must respect the new minimum as well, or the window could stay below the minimum
+        // until the next `on_end_acks` when the MTU grows during recovery.
+        self.recovery_window = self.recovery_window.max(self.min_cwnd);
     }
 
     fn window(&self) -> u64 {
